@@ -183,7 +183,7 @@ def gen_programs(rng, n, maxlen):
         for j in range(k):
             last = (j == k - 1)
             if (rng.random() < 0.5 and not last) or nld >= 3:
-                prog.append(("st", rng.choice("pq"), rng.choice(offs), rng.choice((1, 2, 4)), rng.choice(("r0", "r1"))))
+                prog.append(("st", rng.choice("pq"), rng.choice(offs), rng.choice((1, 2, 4)), rng.choice(["r0", "r1"] + ["x%d" % t for t in range(nld)])))
             else:
                 prog.append(("ld", "x%d" % nld, rng.choice("pq"), rng.choice(offs), rng.choice((1, 2, 4))))
                 nld += 1
@@ -202,6 +202,9 @@ FIXED_PROGRAMS = [
     [("st", "p", 0, 4, "r0"), ("ld", "x0", "p", 1, 2)],
     [("ld", "x0", "p", 0, 4), ("st", "q", 0, 4, "r0"), ("ld", "x1", "p", 0, 4)],
     [("st", "p", 4, 4, "r0"), ("st", "p", 0, 4, "r1"), ("ld", "x0", "q", 3, 2)],
+    # memory-to-memory moves: the stored value is an earlier load
+    [("ld", "x0", "p", 0, 4), ("st", "p", 0, 4, "r0"), ("st", "q", 0, 4, "x0"), ("st", "p", 4, 1, "r1"), ("ld", "x1", "q", 0, 4)],
+    [("st", "p", 0, 4, "r0"), ("ld", "x0", "p", 1, 2), ("st", "q", 0, 2, "x0"), ("ld", "x1", "q", 0, 2)],
 ]
 
 
